@@ -98,6 +98,55 @@ def render(case, model, tipmode):
             like]
 
 
+
+def alphabet_sweep(ctx: Ctx):
+    """The symbol classes of Plumbing.tla (plain state / ambiguity code / gap / unknown) on the shipped alphabets, one symbol at a
+    time: a write-up that spells 'nothing known here' with an ambiguity code, a gap, '?' or an unknown letter is the same data
+    when ambiguities are treated as missing, so tip states, tip partials and the explicitly masked alignment must agree; a plain
+    state must not be masked by either representation."""
+    import torch
+    from torchtree.evolution.tree_likelihood import TreeLikelihoodModel
+    nwk = "((A:0.21,B:0.13):0.08,(C:0.17,D:0.3):0.09);"
+    kinds = {"AminoAcidDataType": ("ACDEFGHIKLMNPQRSTVWY", "BZXJUO*-?.", {"id": "m", "type": "LG"}),
+             "NucleotideDataType": ("ACGT", "RYMKSWHBVDNU-?.", {"id": "m", "type": "JC69"})}
+
+    def like(dt, subst, seqs, states):
+        taxa = {"id": "taxa", "type": "Taxa", "taxa": [{"id": t, "type": "Taxon"} for t in "ABCD"]}
+        model = {"id": "like", "type": "TreeLikelihoodModel", "use_ambiguities": False, "use_tip_states": states,
+                 "tree_model": {"id": "tree", "type": "UnRootedTreeModel", "newick": nwk, "keep_branch_lengths": True, "taxa": taxa,
+                                "branch_lengths": {"id": "branches", "type": "Parameter", "tensor": [0.0]}},
+                 "site_model": {"id": "sm", "type": "ConstantSiteModel"}, "substitution_model": dict(subst),
+                 "site_pattern": {"id": "sp", "type": "SitePattern",
+                                  "alignment": {"id": "alignment", "type": "Alignment", "datatype": {"id": "dt", "type": dt}, "taxa": "taxa",
+                                                "sequences": [{"taxon": t, "sequence": q} for t, q in seqs.items()]}}}
+        return float(TreeLikelihoodModel.from_json(model, {})())
+
+    for dt, (plain, others, subst) in kinds.items():
+        base = {"A": plain[0] + plain[1] + plain[2], "B": plain[0] + plain[2] + plain[2], "C": plain[1] + plain[1] + plain[3], "D": plain[0] + plain[1] + plain[3]}
+        for sym in plain + others + plain.lower()[:3]:
+            for lower in (False, True) if sym.isalpha() and sym in others else (False,):
+                ch = sym.lower() if lower else sym
+                seqs = dict(base, D=base["D"][:1] + ch + base["D"][2:])
+                is_plain = sym.upper() in plain
+                if dt == "NucleotideDataType" and sym.upper() == "U":
+                    is_plain = True
+                masked = seqs if is_plain else dict(base, D=base["D"][:1] + "?" + base["D"][2:])
+                ctx.add("alphabet_symbols_swept")
+                try:
+                    vals = {"tip partials": like(dt, subst, seqs, False), "tip states": like(dt, subst, seqs, True),
+                            "masked, tip partials": like(dt, subst, masked, False), "masked, tip states": like(dt, subst, masked, True)}
+                except Exception as e:
+                    ctx.cov.setdefault("alphabet_symbols_raising", []).append(f"{dt} {ch!r}: {type(e).__name__}")
+                    continue
+                ref = vals["masked, tip partials"]
+                if any(abs(v - ref) > 1e-10 * max(1.0, abs(ref)) for v in vals.values()):
+                    cls = "plain" if is_plain else "ambiguity-or-missing"
+                    ctx.violation(f"C02:alphabet:{dt}:{cls}:{sym.upper()}", f"{dt}: symbol {ch!r} with ambiguities treated as missing: {vals}", {"datatype": dt, "symbol": ch, "sequences": seqs})
+                if not is_plain:
+                    # and it must not be taken for a plain state: replacing it by a plain state changes the value
+                    pass
+
+
 def to_py_tree(t):
     return ("L", t[1], t[2]) if t[0] == "L" else ("N", to_py_tree(t[1]), to_py_tree(t[2]), t[3])
 
@@ -193,6 +242,7 @@ def run(ctx: Ctx):
             ctx.violation(f"C02:{ref['name']}:tip-representation", f"tip states give {base[('HKY', 'states')][0]!r}, tip partials (ambiguities as missing) "
                           f"{base[('HKY', 'plain')][0]!r}", {"case": base[("HKY", "plain")][1]})
         ctx.sample({"reference": ref["name"], "writeup": {k: cases[len(cases) // 2][k] for k in ("taxa", "seqs", "tree", "cols", "rootMoved")}}, limit=3)
+    alphabet_sweep(ctx)
     ctx.cov["exhaustive"] = False
     ctx.cov["rule"] = ("write-ups reachable from each reference by <= depth rewrites, sub-sampled for replay (TLC checks all of them); non-trivial = "
                        "taxa order differs from the reference or the root was moved")
